@@ -1,0 +1,37 @@
+//go:build verif
+// +build verif
+
+/*
+ * Copyright 2022 CloudWeGo Authors
+ *
+ * Licensed under the Apache License, Version 2.0 (the "License");
+ * you may not use this file except in compliance with the License.
+ * You may obtain a copy of the License at
+ *
+ *     http://www.apache.org/licenses/LICENSE-2.0
+ *
+ * Unless required by applicable law or agreed to in writing, software
+ * distributed under the License is distributed on an "AS IS" BASIS,
+ * WITHOUT WARRANTIES OR CONDITIONS OF ANY KIND, either express or implied.
+ * See the License for the specific language governing permissions and
+ * limitations under the License.
+ */
+
+package protocol
+
+// Read-only access to unexported helpers for the verification harness.
+// Only built with -tags verif.
+
+func VerifDecodeArgAppend(dst, src []byte) []byte { return decodeArgAppend(dst, src) }
+
+func VerifDecodeArgAppendNoPlus(dst, src []byte) []byte { return decodeArgAppendNoPlus(dst, src) }
+
+func VerifNormalizePath(dst, src []byte) []byte { return normalizePath(dst, src) }
+
+// VerifVisitArgs is VisitAll plus the no-value flag of each entry.
+func VerifVisitArgs(a *Args, f func(key, value []byte, noValue bool)) {
+	for i := range a.args {
+		kv := &a.args[i]
+		f(kv.key, kv.value, kv.noValue)
+	}
+}
